@@ -12,15 +12,15 @@
    literals and string literals (back-quoted, two-character, character, compressed; printable
    ASCII without escape pairs), the 37 core elements with their number / string / list overloads
    (Values.add_s ... not_s and the element table: + - * N › ‹ d ¬ = < > J L h t f Ṙ ∑ on strings,
-   M F ṡ v ƒ ɖ and for over the characters of a string, a string is true when non-empty), variables and function definitions at top level (not inside
-   a def, where Python would create a local), if / for / while, the lambdas λ ƛ ' µ and the
+   M F ṡ v ƒ ɖ and for over the characters of a string, a string is true when non-empty), variables, named loop variables and function definitions anywhere (inside a def
+   they are locals of that def, with closure cells for the functions defined in it: Python's
+   scoping of the emitted VAR_<x>, see Values.assigned / lookup_var / assign_var), if / for / while, the lambdas λ ƛ ' µ and the
    shorthands ⁽ ‡ ≬, named functions with numeric, named and `*` parameters, list literals, the
    modifiers v & ~ ß ƒ ɖ ₌ ₍; early exits: X in a for / while body (through ifs) = break, X in a
    plain lambda body (through ifs) = early return of the top of its stack, X at top level = nothing;
    x in a for body = continue, x in a plain lambda = recursion, x as the operand of a modifier = call
-   of the function the modifier is used in, x at top level = print the stack.  A nested def does not
-   read a named parameter of an enclosing function (Python would use a closure cell).  NOT in the core (no statement is made): string
-   literals with escapes or non-ASCII text, compressed numbers, the ghost variable and `_` names, assignments inside a def,
+   of the function the modifier is used in, x at top level = print the stack.  NOT in the core (no statement is made): string
+   literals with escapes or non-ASCII text, compressed numbers, the ghost variable and `_` names (attributes of ctx, not Python names),
    triadic modifiers, and -- by the decidable guards Values.break_core / recurse_core / recurse_ok --
    the early exits whose emitted line is not what the documents say: X / x in a while CONDITION
    (known finding C02-exit-in-while-condition), X in a map / filter / sort lambda, a named function,
@@ -143,3 +143,29 @@ Theorem C01_example_strings :
     /\ stk s = [] /\ out s = text [[10216; 32; 96; 97; 98; 96; 32; 124; 32; 96; 49; 98; 96; 32; 10217]]%N).
 Proof. exact example_strings. Qed.
 Print Assumptions C01_example_strings.
+
+(* a named function that calls itself by name and computes 5! = 120; a lambda defined inside a named
+   function reads the function's named parameter and is called after the function has returned (7) *)
+Theorem C01_example_named_recursion :
+  exists p s, parse_source ex_src_named_rec = Ok p /\ core_program p = true
+    /\ run_machine FlNone 40 [] p = XOk s /\ run_ref FlNone 40 [] p = XOk s
+    /\ stk s = [] /\ out s = text [[49; 50; 48]]%N.
+Proof. exact example_named_recursion. Qed.
+Print Assumptions C01_example_named_recursion.
+
+Theorem C01_example_closure :
+  exists p s, parse_source ex_src_closure = Ok p /\ core_program p = true
+    /\ run_machine FlNone 12 [] p = XOk s /\ run_ref FlNone 12 [] p = XOk s
+    /\ stk s = [] /\ out s = text [[55]]%N.
+Proof. exact example_closure. Qed.
+Print Assumptions C01_example_closure.
+
+(* Python scoping of the emitted VAR_<x>: `5→a λ←a 6→a;†` fails (the read precedes the lambda's own
+   assignment), `5→a λ6→a;† ←a` prints 5 (the lambda's `a` is its own) *)
+Theorem C01_example_scoping :
+  (exists p, parse_source ex_src_unbound = Ok p /\ core_program p = true
+     /\ run_machine FlNone 12 [] p = XErr EName /\ run_ref FlNone 12 [] p = XErr EName)
+  /\ (exists p s, parse_source ex_src_local = Ok p /\ core_program p = true
+     /\ run_machine FlNone 12 [] p = XOk s /\ run_ref FlNone 12 [] p = XOk s /\ out s = text [[53]]%N).
+Proof. exact example_scoping. Qed.
+Print Assumptions C01_example_scoping.
